@@ -57,8 +57,19 @@ func setupC05(x *Ctx) {
 	if x.Feat(FeatCutAtRegister) && x.Chance("cut-at-register", 0.12) {
 		k := 1 + x.Choose("cut-at-register-k", 4)
 		stall := x.Chance("stall-at-register", 0.5)
+		// stall only: the connection is registered and run late (slow application
+		// callback), its reader is active all the while
+		noCut := x.Feat(FeatLateRun) && x.Chance("stall-only-at-register", 0.4)
+		if noCut {
+			stall = true
+		}
 		r.atRegister = func(node string, n int) {
 			if n == k {
+				if noCut {
+					x.Probe("stall-at-register")
+					simrt.Sleep(20 * time.Millisecond)
+					return
+				}
 				x.Probe("cut-at-register")
 				r.cutNewest(node)
 				if stall {
